@@ -124,10 +124,10 @@ def _semantics(leaf_ops, qubits):
     has_m = any(cirq.is_measurement(op) for op in leaf_ops)
     D = 2 ** n
     if not has_m:
-        U = np.eye(D, dtype=np.complex128)
+        T = np.eye(D, dtype=np.complex128).reshape(shape + (D,))
         for op in leaf_ops:
-            U = E.embed(_u(op), [idx[q] for q in op.qubits], shape) @ U
-        return "U", U
+            T = _left_apply(T, _u(op), [idx[q] for q in op.qubits], n)  # own contraction, cross-checked against mc.ref.embed
+        return "U", T.reshape(D, D)
     S = np.eye(D * D, dtype=np.complex128)
     for op in leaf_ops:
         if cirq.is_measurement(op):
@@ -422,7 +422,7 @@ def _cases_compile(tier, seed, slow):
             partners = heavy | set(_idx(_CORE3_NAMES)) | {nL}
             seqs = [q for q in seqs if len(q) < 2 or not (set(q) & heavy) or set(q) <= partners]
         if not is_slow:
-            core3 = _idx(_CORE3_NAMES) + [nL + k for k in range(min(2, len(nat)))]
+            core3 = _idx(_CORE3_NAMES) + [nL]
             if tier == "thorough":
                 core3 = sorted(set(core3) | set(_idx(_CORE3_MORE)) | {nL + k for k in range(len(nat))})
             seqs += list(itertools.product(core3, repeat=3))
@@ -1620,12 +1620,13 @@ def stages(tier, seed):
     nrows = len(_membership_table(seed))
     st.append(CaseStage("a0_gateset_membership", [(gi, ri) for gi in range(len(_A["GS"])) for ri in range(nrows)],
                         _timed(_run_membership)))
+    # small chunks: the cost of a case varies from 0.3 ms to 100 ms
     st.append(CaseStage("a1_compile_fast_targets", _cases_compile(tier, seed, slow=False), _timed(_run_compile),
-                        describe=_describe_compile))
+                        describe=_describe_compile, chunk=48))
     st.append(CaseStage("a2_compile_slow_targets", _cases_compile(tier, seed, slow=True), _timed(_run_compile),
-                        describe=_describe_compile))
+                        describe=_describe_compile, chunk=16))
     vcases = [(gi, pi, 0, seq) for seq in _variant_circuits() for gi in range(len(_A["GS"])) for pi in range(len(PASSES))]
-    st.append(CaseStage("a3_compile_fastpath_variants", vcases, _timed(_run_compile), describe=_describe_compile))
+    st.append(CaseStage("a3_compile_fastpath_variants", vcases, _timed(_run_compile), describe=_describe_compile, chunk=32))
     st.append(CaseStage("b1_route_letter_sequences", _cases_route_letters(tier), _timed(_run_route_letters)))
     st.append(CaseStage("b2_route_all_placements", _cases_route_placements(tier, False), _timed(_run_route_placements)))
     st.append(CaseStage("b3_route_directed_graphs", _cases_route_placements(tier, True), _timed(_run_route_placements)))
